@@ -82,4 +82,28 @@ theorem call_table_single_vertical_profiles_if_config_met_get_step_met_index__ge
 theorem call_table_loadConfigBody :
     (loadConfigBody : List String) = ["path = Path(path)", "if not path.exists():     raise FileNotFoundError(f'Config file not found: {path}')", "with open(path) as f:     raw = yaml.safe_load(f)", "return parse_config_dict(raw)"] := rfl
 
+/-! C14: the statement structure of the serial / parallel drivers and of the pool workers (position-based
+regrouping, `pool.map` in submission order, the workers' reset sequence); C11/C06: the solver's array plumbing -/
+
+theorem table_driver_run_bldfm_timeseries :
+    (driver_run_bldfm_timeseries : List String) = ["n = config.met.n_timesteps", "cache = _make_cache(config)", "results = []", "for i in range(n):", "  result = run_bldfm_single(config, tower, met_index=i, surface_flux=surface_flux, cache=cache)", "  results.append(result)", "return results"] := rfl
+
+theorem table_driver_run_bldfm_multitower :
+    (driver_run_bldfm_multitower : List String) = ["results = {}", "for tower in config.towers:", "  results[tower.name] = run_bldfm_timeseries(config, tower, surface_flux=surface_flux)", "return results"] := rfl
+
+theorem table_driver_worker_single :
+    (driver_worker_single : List String) = ["config, tower, met_index = args", "os.environ['NUMBA_NUM_THREADS'] = '1'", "from bldfm import config as cfg", "cfg.NUM_THREADS = 1", "from .fft_manager import reset_fft_manager", "reset_fft_manager()", "return run_bldfm_single(config, tower, met_index=met_index)"] := rfl
+
+theorem table_driver_worker_timeseries :
+    (driver_worker_timeseries : List String) = ["config, tower = args", "os.environ['NUMBA_NUM_THREADS'] = '1'", "from bldfm import config as cfg", "cfg.NUM_THREADS = 1", "from .fft_manager import reset_fft_manager", "reset_fft_manager()", "return (tower.name, run_bldfm_timeseries(config, tower))"] := rfl
+
+theorem table_driver_run_bldfm_parallel :
+    (driver_run_bldfm_parallel : List String) = ["if surface_flux is not None:", "if max_workers is None:", "  max_workers = config.parallel.max_workers", "n_towers = len(config.towers)", "n_time = config.met.n_timesteps", "if parallel_over == 'towers':", "  tasks = [(config, tower) for tower in config.towers]", "  with ProcessPoolExecutor(max_workers=max_workers) as pool:", "    futures = pool.map(_worker_timeseries, tasks)", "  results = {name: res for name, res in futures}", "else:", "  if parallel_over == 'time':", "    results = {}", "    for tower in config.towers:", "      tasks = [(config, tower, i) for i in range(n_time)]", "      with ProcessPoolExecutor(max_workers=max_workers) as pool:", "        step_results = list(pool.map(_worker_single, tasks))", "      results[tower.name] = step_results", "  else:", "    if parallel_over == 'both':", "      tasks = []", "      for tower in config.towers:", "        for i in range(n_time):", "          tasks.append((config, tower, i))", "      with ProcessPoolExecutor(max_workers=max_workers) as pool:", "        flat_results = list(pool.map(_worker_single, tasks))", "      results = {}", "      idx = 0", "      for tower in config.towers:", "        results[tower.name] = flat_results[idx:idx + n_time]", "        idx += n_time", "    else:", "      raise ValueError(f'Unknown parallel_over={parallel_over!r}. Choose 'towers', 'time', or 'both'.')", "return results"] := rfl
+
+theorem table_driver_make_cache :
+    (driver_make_cache : List String) = ["if config.parallel.use_cache and config.solver.footprint:", "  from .cache import GreensFunctionCache", "  return GreensFunctionCache()", "return None"] := rfl
+
+theorem table_solverPlumbing :
+    (solverPlumbing : List (String × String)) = [("(Lx, Ly)", "np.meshgrid(lx, ly)"), ("(Z, Y, X)", "np.meshgrid(z[levels], y, x, indexing='ij')"), ("conc", "p[:, py:nye - py, px:nxe - px]"), ("fftp", "ifftshift(fftp, axes=(1, 2))"), ("fftp", "np.pad(tfftp, pad_width, mode='constant', constant_values=0.0)"), ("fftq", "ifftshift(fftq, axes=(1, 2))"), ("fftq", "np.pad(tfftq, pad_width, mode='constant', constant_values=0.0)"), ("fftq0", "fft2(q0, norm='forward')"), ("fftq0", "fftshift(fftq0)"), ("flx", "q[:, py:nye - py, px:nxe - px]"), ("grid", "(np.squeeze(X), np.squeeze(Y), np.squeeze(Z))"), ("msk[0, 0]", "False"), ("p", "fft2(fftp, norm='backward').real"), ("p", "ifft2(fftp, norm='forward').real"), ("pad_width", "((0, 0), (dly, nye - nly - dly), (dlx, nxe - nlx - dlx))"), ("q", "fft2(fftq, norm='backward').real"), ("q", "ifft2(fftq, norm='forward').real"), ("q0", "np.pad(q0, ((py, py), (px, px)), mode='constant', constant_values=0.0)"), ("result", "(grid, np.squeeze(conc), np.squeeze(flx))"), ("tfftp", "fftshift(tfftp, axes=(1, 2))"), ("tfftp[0, 0, 0]", "p000"), ("tfftq", "fftshift(tfftq, axes=(1, 2))"), ("tfftq0", "fftq0[dly:dly + nly, dlx:dlx + nlx]"), ("tfftq0", "ifftshift(tfftq0)"), ("tfftq0", "np.ones((nly, nlx), dtype=np.complex128) / nxe / nye"), ("tfftq[:, 0, 0]", "tfftq0[0, 0]"), ("x", "np.linspace(0, xmx, nx, endpoint=False)"), ("y", "np.linspace(0, ymx, ny, endpoint=False)")] := rfl
+
 end BLDFM.Bridge
